@@ -398,12 +398,13 @@ type saveOutcome struct {
 
 // fakeMeta: durable store with per-vBucket write granularity (like the Couchbase backend).
 type fakeMeta struct {
-	mu       sync.Mutex
-	durable  map[uint16]ckTuple
-	calls    []*saveCall
-	loads    int
-	loadErr  error
-	loadOmit map[uint16]bool // vBuckets left out of the dump Load returns
+	mu        sync.Mutex
+	durable   map[uint16]ckTuple
+	calls     []*saveCall
+	loads     int
+	loadErr   error
+	loadDelay time.Duration
+	loadOmit  map[uint16]bool // vBuckets left out of the dump Load returns
 	// next outcome for non-blocking saves (nextFn, if set, decides per call)
 	next   saveOutcome
 	nextFn func() saveOutcome
@@ -479,6 +480,12 @@ func (m *fakeMeta) Save(state map[uint16]*models.CheckpointDocument, dirty map[u
 }
 
 func (m *fakeMeta) Load(vbIds []uint16, bucketUUID string) (*wrapper.ConcurrentSwissMap[uint16, *models.CheckpointDocument], bool, error) {
+	m.mu.Lock()
+	d := m.loadDelay
+	m.mu.Unlock()
+	if d > 0 {
+		time.Sleep(d) // a metadata store that takes its time (one read per vBucket against a busy cluster)
+	}
 	m.mu.Lock()
 	defer m.mu.Unlock()
 	m.loads++
